@@ -1851,7 +1851,7 @@ impl Engine for Json {
             };
             emit(format!("json proc {}", sx_line(&[bts(v.to_string().as_bytes())])));
         }
-        let count = if tier == Tier::Quick { 4000 } else { 60000 };
+        let count = if tier == Tier::Quick { 12000 } else { 60000 };
         for i in 0..count {
             let g = GenOpts { hostile: i % 4 != 0, wild: i % 5 == 0, defects: i % 7 == 0 };
             match catch(|| gen_state(&mut *rng, &g)) {
